@@ -169,7 +169,7 @@ ExpectedResult(scn) == [i \in 1..Len(scn.ins) |-> InMeaning(scn, i)]
 (*   parsed    set of <<name, term>>              (parsed_schemas)     *)
 (*   out       set of <<input index, term>>  (intended mode only: the  *)
 (*             result is kept per input, not looked up by name)        *)
-(*   declared  names defined anywhere in the set (intended mode only)  *)
+(*   form,main the rest of the scenario (constant)                     *)
 (*   err       "" or the reason of the failure                         *)
 (*   trace,log parser events (what the proposed hook would emit), kept  *)
 (*             only when trace is set                                  *)
@@ -208,6 +208,9 @@ StoreInput(st, i, t) ==
   IF st.mode = "faithful"
   THEN [st EXCEPT !.parsed = Put(@, StoreKeyOf("faithful", st.ins[i]), t)]
   ELSE [st EXCEPT !.out = @ \cup {<<i, t>>}]
+
+(* intended mode: every name defined anywhere in the set, nested definitions and the main schema included *)
+DeclaredNames(st) == SeqRange(SetDefNames([form |-> st.form, ins |-> st.ins, main |-> st.main]))
 
 RECURSIVE DescendDef(_, _, _), DescendType(_, _, _), DescendFields(_, _, _, _, _), FetchRef(_, _)
 
@@ -253,14 +256,14 @@ FetchRef(nm, st) ==
            r == DescendDef(st.ins[i], "", st1)
        IN IF r.st.err # "" THEN [st |-> r.st, t |-> BadTerm]
           ELSE [st |-> StoreInput(r.st, i, r.t), t |-> RefT(r.t.name)]
-  ELSE IF st.mode = "intended" /\ nm \in st.declared
+  ELSE IF st.mode = "intended" /\ nm \in DeclaredNames(st)
   THEN [st |-> Logged(st, Ev("fetch", nm, "declared")), t |-> RefT(nm)]
   ELSE [st |-> WithErr(Logged(st, Ev("fetch", nm, "miss")), "unknown type " \o nm), t |-> BadTerm]
 
 (* ---- the steps of the machine ---- *)
 InitState(scn, mode) ==
-  [mode |-> mode, ins |-> scn.ins, pending |-> 1..Len(scn.ins), resolving |-> {}, parsed |-> {}, out |-> {},
-   declared |-> IF mode = "intended" THEN TLCEval(SeqRange(SetDefNames(scn))) ELSE {},
+  [mode |-> mode, ins |-> scn.ins, form |-> scn.form, main |-> scn.main,
+   pending |-> 1..Len(scn.ins), resolving |-> {}, parsed |-> {}, out |-> {},
    err |-> "", trace |-> FALSE, log |-> <<>>]
 
 (* before anything is parsed: two inputs filed under one name are rejected (parse_list, NameCollision); *)
